@@ -128,6 +128,8 @@ def gen_model(rng):
         sp = rng.choice(SPIN)
         if rng.random() < 0.5:
             a, b = rng.choice(RES2), rng.choice(RES2)
+            if rng.random() < 0.15:
+                b = a       # the same resonance on both sides (as 4-pion / K K pi pi event types allow), written with other tags / one of them bare
             tops.append(Node("D0", sp, None, [sub2(a) if rng.random() < 0.5 else Node(a), sub2(b) if rng.random() < 0.5 else Node(b)]))
         else:
             a = rng.choice(RES3)
